@@ -5,6 +5,11 @@ from . import scen_common, scen_payflow
 
 PID = 'C05'
 
+class StopAfterSecondPay:
+    """Nothing of C05 is left to decide once the second pay request of a two-set configuration was examined."""
+    def is_terminal(self, m, sc):
+        return len([c for c in m.st.env.calls if c.method == 'pay' and c.state != 'new']) >= 2
+
 def main(tier, seed, args):
     rep = Report(PID, tier, seed, 'model_checking')
     c = ctx('on')
@@ -13,11 +18,12 @@ def main(tier, seed, args):
                   'pay_outcomes': 'complete, pending, failed, failed+warning, RPC error', 'outside': 'more sets / parts / crashes; RPC faults (thorough: 1)'}
     rep.assumptions = ['node model: a pay command that returned creates no further parts; part states monotone']
     rep.trusted = ['mirsym', 'z3', 'node model', 'tokio contracts']
-    budget = 100 if tier == 'quick' else 1500
+    budget = 400 if tier == 'quick' else 3000
     configs = []
     fl = 1 if tier == 'thorough' else 0
-    for name, cfg, pc, kw in scen_payflow.standard_configs(tier, crash=True, faults=fl, fault_methods=('listsendpays', 'waitsendpay', 'listdatastore')):
-        configs.append((name, cfg, pc, [OneAttempt(), Coverage(['pay'] if 'succeeded' not in name else ['response:Resolve'])], kw))
+    for name, cfg, pc, kw in scen_payflow.standard_configs(tier, two_sets=('paid', 'error:210'), crash=True, faults=fl, fault_methods=('listsendpays', 'waitsendpay', 'listdatastore')):
+        extra = [StopAfterSecondPay()] if 'first pay ends' in name else []
+        configs.append((name, cfg, pc, extra + [OneAttempt(), Coverage(['response:Resolve'] if 'succeeded' in name else ([] if 'stored=pending' in name else ['pay']))], kw))
     scen_common.run_configs(rep, PID, c, configs, budget)
     finish(rep, [c], './check C05 --tier ' + tier)
 
